@@ -67,7 +67,7 @@ fn cmd_of_len(g: &mut G<'_>, kind: usize, plen: usize, stmt: u32, cmds: &mut Vec
 }
 
 fn expected_events(c: &Conversation) -> Vec<Event> {
-    let mut ev = vec![Event::Auth { user: c.hs.user().map(|u| u.to_vec()), certs: None }];
+    let mut ev = vec![Event::Auth { user: c.hs.user(), certs: None }];
     let mut pending: std::collections::HashMap<(u32, u16), Vec<u8>> = Default::default();
     for sc in &c.cmds {
         match &sc.cmd {
